@@ -1167,6 +1167,11 @@ def call_method(it, recv, name, args, kwargs, node, fr):
             for k_ in ("rank", "pos_of"):
                 if hasattr(recv, k_):
                     setattr(u, k_, getattr(recv, k_))
+            cp_ = kwargs.get("copy")
+            if cp_ is None or (is_pyconst(cp_) and pyval(cp_) is True):
+                u.fresh = True  # astype returns a new array unless copy=False is asked for
+            if args:
+                u.elem_kind = _dtype_kind(args[0])
             return u
         if name == "transpose":
             u = Unk(call(".transpose", recv.term, *[to_term(a) for a in args]), space=None)
